@@ -97,6 +97,12 @@ def run_crawl(spec, timeout=120, keep=None):
             shutil.rmtree(work, ignore_errors=True)
 
 
+def random_loopback():
+    import random
+    r = random.SystemRandom()
+    return '127.%d.%d.%d' % (r.randrange(1, 255), r.randrange(0, 256), r.randrange(1, 255))
+
+
 def free_port():
     import socket
     s = socket.socket()
@@ -116,7 +122,10 @@ def run_with_resume(spec, kill, timeout=120):
         if attempt and tp and os.path.exists(tp):
             os.remove(tp)       # the void attempt's operation trace
         try:
-            port = free_port()
+            # a fixed port (spec['port'], with a per-run loopback address) keeps the URL strings of a site the same in every run
+            port = spec.get('port') or free_port()
+            if spec.get('port'):
+                spec = dict(spec, bind_ip=random_loopback())
             s1 = dict(spec, port=port, **kill)
             r1 = run_once(work, s1, timeout)
             if busy(r1) and attempt < 3:
